@@ -296,8 +296,74 @@ pub mod prim {
         pub parent_of: Ghost<Map<usize, Option<usize>>>,
     }
 
+    // ---- XmlElement::remove_attribute: the attribute list by local name ----
+    pub uninterp spec fn local_name_of(id: usize) -> Seq<char>;     // the local name of an attribute item: never changes
+    pub open spec fn first_named(s: Seq<ItemRef>, name: Seq<char>) -> int
+        decreases s.len(),
+    {
+        if s.len() == 0 { -1 } else if local_name_of(s[0].ident) == name { 0 } else { let r = first_named(s.subrange(1, s.len() as int), name); if r < 0 { -1 } else { r + 1 } }
+    }
+    pub open spec fn distinct_items(s: Seq<ItemRef>) -> bool { forall|i: int, j: int| 0 <= i < j < s.len() ==> (#[trigger] s[i]).ident != (#[trigger] s[j]).ident }
+    // self.attributes.iter().find(|v| v.as_attribute().unwrap().borrow().local_name() == name).cloned(): the first one with that local name
+    #[verifier::external_body]
+    pub fn shim_find_by_local_name(v: &Vec<ItemRef>, name: &str) -> (r: Option<ItemRef>)
+        ensures ({ let i = first_named(v@, name@); (r is Some <==> i >= 0) && (r is Some ==> r->Some_0 == v@[i]) }),
+    { unimplemented!() }
+    // self.attributes.retain(|a| a.id() != id)
+    #[verifier::external_body]
+    pub fn shim_retain_other_ids(v: &mut Vec<ItemRef>, id: usize)
+        ensures final(v)@ == old(v)@.filter(|x: ItemRef| x.ident != id),
+    { unimplemented!() }
+    pub proof fn lemma_first_named_bounds(s: Seq<ItemRef>, name: Seq<char>)
+        ensures -1 <= first_named(s, name) < s.len(),
+        decreases s.len(),
+    {
+        if s.len() > 0 && local_name_of(s[0].ident) != name { lemma_first_named_bounds(s.subrange(1, s.len() as int), name); }
+    }
+    // keeping everything keeps everything
+    pub proof fn lemma_filter_keeps_all(s: Seq<ItemRef>, id: usize)
+        requires forall|k: int| 0 <= k < s.len() ==> (#[trigger] s[k]).ident != id,
+        ensures s.filter(|x: ItemRef| x.ident != id) =~= s,
+        decreases s.len(),
+    {
+        reveal(Seq::filter);
+        if s.len() > 0 {
+            let d = s.drop_last();
+            assert forall|k: int| 0 <= k < d.len() implies (#[trigger] d[k]).ident != id by { assert(d[k] == s[k]); }
+            lemma_filter_keeps_all(d, id);
+            assert(s.last().ident != id);
+        }
+    }
+    // in a list of pairwise different items, dropping "the id of entry i" drops exactly entry i
+    pub proof fn lemma_filter_is_remove(s: Seq<ItemRef>, i: int)
+        requires distinct_items(s), 0 <= i < s.len(),
+        ensures s.filter(|x: ItemRef| x.ident != s[i].ident) =~= s.remove(i),
+        decreases s.len(),
+    {
+        reveal(Seq::filter);
+        let id = s[i].ident;
+        let d = s.drop_last();
+        if i == s.len() - 1 {
+            assert forall|k: int| 0 <= k < d.len() implies (#[trigger] d[k]).ident != id by { assert(d[k] == s[k]); }
+            lemma_filter_keeps_all(d, id);
+            assert(s.remove(i) =~= d);
+        } else {
+            assert(distinct_items(d)) by { assert forall|a: int, b: int| 0 <= a < b < d.len() implies (#[trigger] d[a]).ident != (#[trigger] d[b]).ident by { assert(d[a] == s[a]); assert(d[b] == s[b]); } }
+            assert(d[i] == s[i]);
+            lemma_filter_is_remove(d, i);
+            assert(s.last().ident != id);
+            assert(s.remove(i) =~= d.remove(i).push(s.last()));
+        }
+    }
+
     impl XmlElement {
         pub fn id(&self) -> (r: usize) ensures r == self.ident { self.ident }
+        // v.clear_order(): the item leaves the document order vector (units/c14_order.py); lists and parent links stay
+        #[verifier::external_body]
+        pub fn world_clear_order(&mut self, value: &ItemRef)
+            ensures final(self).ident == old(self).ident, final(self).children@ == old(self).children@, final(self).attributes@ == old(self).attributes@,
+                    final(self).parent_of@ == old(self).parent_of@,
+        { unimplemented!() }
         // HasParent::ancestor: walks parent links (assumed callee, read-only)
         #[verifier::external_body]
         pub fn ancestor(&self, id: usize) -> (r: bool) { unimplemented!() }
@@ -345,6 +411,8 @@ pub mod prim {
         //@@ element_last_child_or_self_id
 
         //@@ element_append_attribute
+
+        //@@ element_remove_attribute
 
         //@@ element_insert_by_id
 
@@ -549,6 +617,21 @@ def build():
                  ('listed', 'final(self).attributes@ == old(self).attributes@.push(attr)'),
                  ('C12:the_attribute_names_the_element_as_its_owner', 'final(self).parent_of@.dom().contains(attr.ident) && final(self).parent_of@[attr.ident] == Some(old(self).ident)')],
         inject=[(r'self\.world_place_subtree_after\(&attr, id\);', 'proof { assert(attribute_anchor(*old(self), id)); }', 'before optional')])
+    fns['element_remove_attribute'] = Fn(
+        FI, 'impl XmlElement', 'remove_attribute', props=['C13', 'C12'], safety_props=['C13'], sig_rules=[PUB, Rule('R11', r'Option<Rc<XmlItem>>', 'Option<ItemRef>', 'Rc<XmlItem> -> environment handle (A4)')],
+        label='XmlElement::remove_attribute',
+        rules=[Rule('R46', r'self\s*\.attributes\s*\.iter\(\)\s*\.find\(\|v\| v\.as_attribute\(\)\.unwrap\(\)\.borrow\(\)\.local_name\(\) == name\)\s*\.cloned\(\)',
+                    lambda m: 'shim_find_by_local_name(&self.attributes, name)' + '\n' * m.group(0).count('\n'), 'iter().find(local name equals).cloned() -> shim: the first attribute with that local name'),
+               Rule('R46', r'self\.attributes\.retain\(\|a\| a\.id\(\) != v\.id\(\)\);', 'shim_retain_other_ids(&mut self.attributes, v.id());', 'Vec::retain(id differs) -> shim: Seq::filter'),
+               Rule('R43', r'v\.clear_order\(\);', 'self.world_clear_order(&v);', 'the document order vector is shared: made explicit on the receiver'),
+               Rule('R43', r'v\.set_parent_id\(None\);', 'self.world_set_parent_id(&v, None);', 'the owner link lives in the shared world: made explicit on the receiver')],
+        inject=[(r'shim_retain_other_ids\(&mut self\.attributes, v\.id\(\)\);', 'proof { lemma_first_named_bounds(old(self).attributes@, name@); if distinct_items(old(self).attributes@) { lemma_filter_is_remove(old(self).attributes@, first_named(old(self).attributes@, name@)); } }', 'before')],
+        ensures=[('C13+C12:no_attribute_of_that_name_nothing_changes',
+                  'first_named(old(self).attributes@, name@) < 0 ==> r is None && final(self).attributes@ == old(self).attributes@ && final(self).parent_of@ == old(self).parent_of@'),
+                 ('C13+C12:the_first_attribute_of_that_name_is_answered_leaves_the_list_and_loses_its_owner',
+                  '({ let l = old(self).attributes@; let i = first_named(l, name@); i >= 0 ==> r == Some(l[i]) && final(self).attributes@ == l.filter(|x: ItemRef| x.ident != l[i].ident)'
+                  ' && final(self).parent_of@ == old(self).parent_of@.insert(l[i].ident, None) && (distinct_items(l) ==> final(self).attributes@ =~= l.remove(i)) })'),
+                 ('C12:the_children_stay', 'final(self).children@ == old(self).children@ && final(self).ident == old(self).ident')])
     fns['element_delete_by_id'] = Fn(
         FI, 'impl HasChildren for XmlElement', 'delete_by_id', props=['C12'], safety_props=['C12'], sig_rules=SRP, label='XmlElement::delete_by_id',
         rules=[Rule('R11', r'self\.children\.borrow_mut\(\)\.', 'self.children.', 'RefCell borrow dropped (A4)'),
